@@ -532,11 +532,66 @@ func (h *harness) idctSection() {
 		n = 20000
 	}
 	haveAvx := strings.Contains(h.fl[0].have, "avx2") && strings.Contains(h.fl[0].macros, "v3")
+	// deterministic sweep first: every single AC position (with and without DC), every single
+	// row and column -- the AVX2 code's "are all AC terms zero" shortcut is a two-stage test of
+	// specific positions (8..11 and 16..19 first, then rows 1..7), the portable code tests each
+	// column / row separately
+	const nSweep = 63*2 + 14
+	n += nSweep
 	for i := 0; i < n; i++ {
 		c := make([]int, 64)
 		q := make([]byte, 64)
-		kind := i % 8
+		kind := (i - nSweep) % 12
+		switch {
+		case i < 63:
+			kind = 100
+			c[0] = rd.Range(-200, 200)
+			c[1+i] = rd.Range(8, 120) * (1 - 2*rd.Intn(2))
+		case i < 126:
+			kind = 100
+			c[1+(i-63)] = rd.Range(1, 300) * (1 - 2*rd.Intn(2))
+		case i < 133: // one row 1..7
+			kind = 100
+			c[0] = rd.Range(-100, 100)
+			for k := 0; k < 8; k++ {
+				c[8*(i-126+1)+k] = rd.Range(-40, 40)
+			}
+		case i < nSweep: // one column 1..7
+			kind = 100
+			c[0] = rd.Range(-100, 100)
+			for k := 0; k < 8; k++ {
+				c[8*k+(i-133+1)] = rd.Range(-40, 40)
+			}
+		}
 		switch kind {
+		case 100:
+		case 8: // a random subset of rows is non-zero
+			mask := rd.Intn(256)
+			for k := range c {
+				if mask>>(uint(k)/8)&1 != 0 && rd.Intn(3) == 0 {
+					c[k] = rd.Range(-60, 60)
+				}
+			}
+			c[0] = rd.Range(-300, 300)
+		case 9: // a random subset of columns is non-zero
+			mask := rd.Intn(256)
+			for k := range c {
+				if mask>>(uint(k)%8)&1 != 0 && rd.Intn(3) == 0 {
+					c[k] = rd.Range(-60, 60)
+				}
+			}
+			c[0] = rd.Range(-300, 300)
+		case 10: // 1..3 coefficients outside the positions of the cheap zero test (8..11, 16..19)
+			for j := 0; j < 1+rd.Intn(3); j++ {
+				p := 1 + rd.Intn(63)
+				if (p >= 8 && p <= 11) || (p >= 16 && p <= 19) {
+					p = 56 + rd.Intn(8)
+				}
+				c[p] = rd.Range(-150, 150)
+			}
+			c[0] = rd.Range(-300, 300)
+		case 11: // a single coefficient of any magnitude
+			c[rd.Intn(64)] = []int{1, -1, 255, 256, -256, 257, 1023, -1024, 2047, 32767, -32768, 128, -128}[rd.Intn(13)]
 		case 0: // DC only
 			c[0] = rd.Range(-1100, 1100)
 		case 1: // sparse moderate
@@ -580,6 +635,8 @@ func (h *harness) idctSection() {
 		}
 		for k := range q {
 			switch kind {
+			case 100:
+				q[k] = byte(rd.Range(1, 3))
 			case 2, 6:
 				q[k] = byte(rd.Range(1, 255))
 			case 5:
@@ -667,6 +724,102 @@ func (h *harness) hashSection() {
 			}
 			r.Count("hashref:" + codec)
 		}
+	}
+	h.hashWorstCase()
+}
+
+// hseg = a run of n copies of one byte value, or literal bytes
+type hseg struct {
+	lit []byte
+	b   byte
+	n   int
+}
+
+func segsBytes(segs []hseg) []byte {
+	var out []byte
+	for _, s := range segs {
+		if s.lit != nil {
+			out = append(out, s.lit...)
+			continue
+		}
+		for i := 0; i < s.n; i++ {
+			out = append(out, s.b)
+		}
+	}
+	return out
+}
+
+func segsOp(segs []hseg) string {
+	var f []string
+	for _, s := range segs {
+		if s.lit != nil {
+			f = append(f, "h:"+hlib.Hex(s.lit))
+		} else {
+			f = append(f, fmt.Sprintf("r:%02x*%d", s.b, s.n))
+		}
+	}
+	return strings.Join(f, " ")
+}
+
+// hashWorstCase: inputs that drive the accumulators of the hashers to their extremes.  Adler-32
+// sums bytes into u32 s1/s2 and reduces modulo 65521 only once per chunk of ~5552 bytes (5536 in
+// the SSE4.2 twin): the worst case is a chunk of 0xFF bytes starting with s1 (and s2) near 65520.
+// Long runs of 0xFF sweep s1 over all residues at the chunk starts; the crafted prefixes put
+// s1 = 65520 exactly at a chunk start.  All in ONE update call (chunks count from its start).
+func (h *harness) hashWorstCase() {
+	r := h.r
+	rd := r.Rand.Fork()
+	long := 700001
+	if r.Thorough {
+		long = 3000017
+	}
+	var cases [][]hseg
+	ff := func(n int) hseg { return hseg{b: 0xFF, n: n} }
+	cases = append(cases, []hseg{ff(2 * 5536)}, []hseg{ff(3*5552 + 1)}, []hseg{ff(70001)}, []hseg{ff(long)})
+	for _, c := range []int{5536, 5552, 5568, 5600, 11072} {
+		// byte sum 65519 -> s1 = 65520 after the first chunk of c bytes; then chunks of 0xFF
+		cases = append(cases, []hseg{{b: 0, n: c - 257}, ff(256), {lit: []byte{0xEF}}, ff(2*c + rd.Intn(40))})
+		// the bytes early in the chunk also push s2 high
+		cases = append(cases, []hseg{ff(254), {lit: []byte{0xE6}}, {b: 0, n: c - 255}, ff(c), ff(rd.Intn(5000))})
+	}
+	// random long inputs with 0xFF-heavy content
+	for i := 0; i < 3; i++ {
+		cases = append(cases, []hseg{{lit: rd.Bytes(1 + rd.Intn(6000))}, ff(5000 + rd.Intn(7000)), {lit: rd.Bytes(rd.Intn(100))}, ff(6000 + rd.Intn(60000))})
+	}
+	for ci, segs := range cases {
+		data := segsBytes(segs)
+		file := filepath.Join(h.dir, fmt.Sprintf("hashwc%d.bin", ci))
+		if err := os.WriteFile(file, data, 0o644); err != nil {
+			h.fatal("write hash input", err)
+			return
+		}
+		for _, codec := range []string{"adler32", "crc32", "crc64", "xxhash32", "xxhash64"} {
+			if codec == "crc64" && len(data) > 100000 {
+				continue // the bit-at-a-time reference model needs bignums for 64-bit values
+			}
+			want := ""
+			for _, f := range h.fl {
+				pl := h.pools[f.name]
+				if pl == nil {
+					continue
+				}
+				for _, v := range [][2]int{{0, 0}, {5, 0}, {0, 4093}} {
+					cmd := fmt.Sprintf("run codec=%s init=2 prefill=r:%d misalign=%d srcchunk=%d src=@%s", codec, 31+v[0], v[0], v[1], file)
+					got := "v " + fieldsKV(pl.ask(cmd))["v"]
+					if want == "" {
+						want = got
+						if !strings.HasPrefix(codec, "xxhash") {
+							r.Op(codec+"x "+segsOp(segs), got)
+						}
+					} else if got != want {
+						r.Fail("hash:"+codec+":variant", fmt.Sprintf("%s of %d bytes (%s) differs between builds/alignments/chunkings (%s vs %s in %s misalign %d srcchunk %d)", codec, len(data), segsOp(segs), got, want, f.name, v[0], v[1]),
+							fmt.Sprintf("run codec=%s init=2 prefill=r:%d misalign=%d srcchunk=%d src=<%s>", codec, 31+v[0], v[0], v[1], segsOp(segs)))
+					}
+				}
+			}
+			r.Count("hashref:worst-case:" + codec)
+		}
+		os.Remove(file)
 	}
 }
 
